@@ -66,7 +66,9 @@ def _strategy(tier, var):
         jit = draw(st.lists(st.sampled_from([0, 0, 1, 2, 3, 5, 6]), min_size=len(fam), max_size=len(fam)))
         fam = [n + j for n, j in zip(fam, jit)]
         coarse = res[0]
-        ang = draw(gen.floats(0.0, 6.2831, 32))
+        # direction of the uniform stream: any angle, or (a quarter of the cases) along an axis / a diagonal of the grid
+        ang = draw(st.one_of(gen.floats(0.0, 6.2831, 32), gen.floats(0.0, 6.2831, 32), gen.floats(0.0, 6.2831, 32),
+                             st.sampled_from([k * 0.7853981633974483 for k in range(8)])))
         ang2 = draw(gen.floats(-1.2, 1.2, 32))
         return {
             "kind": kind, "dtype": dtype, "family": fam,
